@@ -15,6 +15,8 @@ def setup(J):
         for k, sep in ((2, " -I "), (3, ", "), (2, ",")):
             jobs.append(J.with_delay_fallback(J.wf("C15", "gjoin", k, 1, 2, "cmd", oracles=["nohang", "clean", "c18"], tier=tier, events_dep=False, extra=sep,
                                                    id=f"C15-join-sep-k{k}-{'-'.join(str(ord(c)) for c in sep)}")))
+        # ... members given with ABSOLUTE paths: substituted as they are (no "../" in front)
+        jobs.append(J.with_delay_fallback(J.wf("C15", "gjoin", 2, 1, 2, "cmd", oracles=["nohang", "clean", "c18"], tier=tier, events_dep=False, extra=" ", abs_src=True, id="C15-join-absolute-members")))
         # ... and modifiers behind the join: applied to every member, not to the joined string
         for k, sep, mod in ((2, ",", "%.txt"), (3, " ", "basename"), (3, " -I ", "%.txt")):
             jobs.append(J.with_delay_fallback(J.wf("C15", "gjoin", k, 1, 2, "cmd", oracles=["nohang", "clean", "c18"], tier=tier, events_dep=False, extra=sep + "|" + mod,
